@@ -14,7 +14,8 @@ pub fn gen_kind(rng: &mut Rng) -> AtomKind {
         0..=4 => AtomKind::Star,
         5..=10 => AtomKind::Aliphatic(all_aliphatic().swap_remove(rng.below(12))),
         11..=12 => AtomKind::Aromatic(all_aromatic().swap_remove(rng.below(6))),
-        13..=14 => gen_edge_bracket(rng),
+        13 => gen_edge_bracket(rng),
+        14 => gen_stereo(rng),
         _ => gen_bracket(rng),
     }
 }
@@ -63,7 +64,8 @@ pub fn gen_history_rings(rng: &mut Rng, n: usize) -> Vec<Ev> {
             13..=15 if !open.is_empty() => { let i = rng.below(open.len()); let (r, k, _) = open.remove(i);
                          let k2 = match rng.below(4) { 0 => BondKind::Elided, 1 => k.reverse(), 2 => k.clone(), _ => gen_bk(rng) }; h.push(Ev::Join(k2, rnum_of(r))) }
             16..=17 if len >= 2 => { let d = 1 + rng.below(len - 1); h.push(Ev::Pop(d)); len -= d }
-            18 => { h.push(Ev::Root(gen_kind(rng))); len += 1; atoms += 1 }
+            18 => { let k = if rng.chance(1, 2) { gen_stereo(rng) } else { gen_kind(rng) }; h.push(Ev::Root(k)); len += 1; atoms += 1;
+                    if !open.is_empty() && rng.chance(2, 3) { let i = rng.below(open.len()); let (r, k, _) = open.remove(i); h.push(Ev::Join(if rng.chance(1, 2) { BondKind::Elided } else { k.reverse() }, rnum_of(r))) } }
             _ => { h.push(Ev::Extend(gen_bk(rng), gen_kind(rng))); len += 1; atoms += 1 }
         }
     }
@@ -135,4 +137,49 @@ pub fn gen_edge_bracket(rng: &mut Rng) -> AtomKind {
         charge: match rng.below(4) { 0 => None, 1 => Some(Charge::Fifteen), 2 => Some(Charge::MinusFifteen), _ => Some(all_charge().swap_remove(rng.below(30))) },
         map: match rng.below(4) { 0 => None, 1 => Some(Number::try_from(999).unwrap()), 2 => Some(Number::try_from(0).unwrap()), _ => Some(Number::try_from(rng.below(1000) as u16).unwrap()) },
     }
+}
+
+/// a tetrahedral bracket atom: TH1/TH2, with hcount absent / H0 / H1 / H2
+pub fn gen_stereo(rng: &mut Rng) -> AtomKind {
+    AtomKind::Bracket { isotope: if rng.chance(1, 5) { Some(Number::try_from(13).unwrap()) } else { None },
+        symbol: BracketSymbol::Element(all_element().swap_remove([5usize, 6, 13, 14, 15][rng.below(5)])),
+        configuration: Some(if rng.chance(1, 2) { Configuration::TH1 } else { Configuration::TH2 }),
+        hcount: match rng.below(4) { 0 => None, 1 => Some(VirtualHydrogen::H0), 2 => Some(VirtualHydrogen::H1), _ => Some(VirtualHydrogen::H2) },
+        charge: if rng.chance(1, 6) { Some(Charge::One) } else { None }, map: None }
+}
+
+/// every bracket kind of two structured domains is written and read back by the implementation; returns (kinds swept, offenders, a stride sample)
+pub fn kind_sweep() -> (usize, Vec<AtomKind>, Vec<AtomKind>) {
+    use crate::{clone_kind, guarded};
+    use purr::read::verif::{Scanner, verif_read_atom};
+    let num = |x: Option<u16>| x.map(|x| Number::try_from(x).unwrap());
+    let sym = |i: usize| if i < 118 { BracketSymbol::Element(all_element().swap_remove(i)) } else if i < 126 { BracketSymbol::Aromatic(all_bracket_aromatic().swap_remove(i - 118)) } else { BracketSymbol::Star };
+    let cfg = |i: usize| if i == 0 { None } else { Some(all_configuration().swap_remove(i - 1)) };
+    let hc = |i: usize| if i == 0 { None } else { Some(all_virtual_hydrogen().swap_remove(i - 1)) };
+    let ch = |i: usize| if i == 0 { None } else { Some(all_charge().swap_remove(i - 1)) };
+    let (ncfg, nh, nch) = (all_configuration().len() + 1, all_virtual_hydrogen().len() + 1, all_charge().len() + 1);
+    let th: Vec<usize> = { let c = all_configuration(); let mut v = vec![0usize]; for (i, x) in c.iter().enumerate() { if *x == Configuration::TH1 || *x == Configuration::TH2 { v.push(i + 1) } } v };
+    let common_ch: Vec<usize> = { let c = all_charge(); let mut v = vec![0usize]; for (i, x) in c.iter().enumerate() { if [Charge::One, Charge::MinusOne, Charge::Two, Charge::Three, Charge::MinusTwo].contains(x) { v.push(i + 1) } } v };
+    let common_h: Vec<usize> = { let c = all_virtual_hydrogen(); let mut v = vec![0usize]; for (i, x) in c.iter().enumerate() { if [VirtualHydrogen::H0, VirtualHydrogen::H1, VirtualHydrogen::H2, VirtualHydrogen::H3, VirtualHydrogen::H4].contains(x) { v.push(i + 1) } } v };
+    let isos = [None, Some(0u16), Some(1), Some(2), Some(3), Some(11), Some(12), Some(13), Some(14), Some(15), Some(18), Some(32), Some(35), Some(99), Some(100), Some(125), Some(131), Some(999)];
+    let maps = [None, Some(0u16), Some(1), Some(12)];
+    let (mut total, mut bad, mut sample) = (0usize, vec![], vec![]);
+    let mut visit = |k: AtomKind| {
+        total += 1;
+        let text = k.to_string(); let mut sc = Scanner::new(&text);
+        // the documented shorthands: H0 is written as nothing, AL1/AL2 as @/@@ (only a filter: the Coq oracle judges what is forwarded)
+        let want = match clone_kind(&k) { AtomKind::Bracket { isotope, symbol, configuration, hcount, charge, map } => AtomKind::Bracket { isotope, symbol,
+            configuration: match configuration { Some(Configuration::AL1) => Some(Configuration::TH1), Some(Configuration::AL2) => Some(Configuration::TH2), c => c },
+            hcount: match hcount { Some(VirtualHydrogen::H0) => None, h => h }, charge, map }, other => other };
+        let ok = match guarded(|| verif_read_atom(&mut sc)) { Ok(Ok(Some(k2))) => k2 == want && sc.cursor() == text.chars().count(), _ => false };
+        if !ok && bad.len() < 48 { bad.push(clone_kind(&k)) }
+        if total % 9973 == 0 { sample.push(k) }
+    };
+    // A: every symbol, common values of the other fields
+    for iso in &isos { for s in 0..127 { for c in &th { for h in &common_h { for q in &common_ch { for m in &maps {
+        visit(AtomKind::Bracket { isotope: num(*iso), symbol: sym(s), configuration: cfg(*c), hcount: hc(*h), charge: ch(*q), map: num(*m) }) } } } } } }
+    // B: a few symbols, every configuration, hydrogen count and charge
+    for iso in [None, Some(13u16), Some(2)].iter() { for s in [5usize, 6, 7, 14, 15, 118, 119, 126].iter() { for c in 0..ncfg { for h in 0..nh { for q in 0..nch { for m in [None, Some(5u16)].iter() {
+        visit(AtomKind::Bracket { isotope: num(*iso), symbol: sym(*s), configuration: cfg(c), hcount: hc(h), charge: ch(q), map: num(*m) }) } } } } } }
+    (total, bad, sample)
 }
